@@ -611,6 +611,27 @@ def f54():
     return all(r == (True, False, "a-item-secret", True) for r in res), "items taken over from another configuration's list: %r" % (res,)
 
 
+
+@witness("F55", ["C10", "C02"])
+def f55():
+    from cincoconfig import Schema, ListField, IntField, StringField, VirtualField
+    it = Schema()
+    it.a = IntField(default=1)
+    it.pw = StringField(sensitive=True, default="secret-pw")
+    it.v = VirtualField(lambda cfg: cfg.a + 1)
+    s = Schema()
+    s.items = ListField(it)
+    c = s()
+    c.items = [{"a": 1}, {"a": 5}]
+    plain = c.to_tree(virtual=True)
+    masked = c.to_tree(virtual=True, sensitive_mask="#")
+    novirt = c.to_tree()
+    ok = (plain == {"items": [{"a": 1, "pw": "secret-pw", "v": 2}, {"a": 5, "pw": "secret-pw", "v": 6}]}
+          and masked == {"items": [{"a": 1, "pw": "#########", "v": 2}, {"a": 5, "pw": "#########", "v": 6}]}
+          and novirt == {"items": [{"a": 1, "pw": "secret-pw"}, {"a": 5, "pw": "secret-pw"}]})
+    return ok, "virtual fields of configurations in lists, with and without a mask: %r / %r" % (plain, masked)
+
+
 # ---------------------------------------------------------------------------------------------
 # probes of OPEN findings that no correspondence stream reaches (operations outside the model's
 # alphabet).  A probe returns (still_reproduces, detail); it never raises an alarm by itself.
